@@ -541,6 +541,20 @@ Proof.
   rewrite E in Hs. cbn [skip_next] in Hs. discriminate.
 Qed.
 
+(* the token of a scalar value does not start with a bracket *)
+Lemma tok_not_lb v t rest :
+  tokof dec2f dec2d v t -> rest_ok rest -> (hd0 (t ++ rest) =? 91) = false.
+Proof.
+  intros (Hrd & _ & Hsc) Hr. apply Z.eqb_neq. intros Hh.
+  destruct (Hrd rest Hr) as [Hs _]. specialize (Hs 0%nat None false false).
+  destruct (t ++ rest) as [|c r] eqn:Esrc; [discriminate|]. rewrite hd0_cons in Hh. subst c.
+  cbn [skip_next] in Hs. unfold skip_core in Hs. change (first_class 91) with FC_lb in Hs. cbv iota in Hs.
+  match type of Hs with context [skip_array_loop ?a ?b ?c ?d ?e ?f] =>
+    destruct (skip_array_loop a b c d e f) as [[r' k]| | |]; try discriminate end.
+  destruct (hd0 r' =? 93); try discriminate. cbn [andb] in Hs. inversion Hs as [[E1 E2 E3]].
+  destruct v; cbn in E3; try discriminate. exact Hsc.
+Qed.
+
 Lemma rep_mult n t rest : 1 <= n ->
   is_range_multiplier (dec_nat n ++ 120 :: t ++ rest) = true /\
   after_x (dec_nat n ++ 120 :: t ++ rest) = t ++ rest /\ nodot (dec_nat n ++ [120]).
@@ -606,6 +620,7 @@ Proof.
   - (* a value *)
     destruct Hpok as [Htk Hnt]. subst v.
     apply (Hgoal t _ Htk eq_refl). unfold chk_l1.
+    rewrite (not_range_mult_reads pv t _ Htk Hro), (tok_not_lb pv t _ Htk Hro).
     replace (t ++ sepp ++ tail_text k b last sp ++ rest)
       with ((t ++ sepp ++ ib' ++ [cb] ++ [32]) ++ [46; 46; 46] ++ X)
       by (rewrite ET0, Etb, <- !app_assoc; reflexivity).
@@ -614,7 +629,7 @@ Proof.
       replace ((t ++ sepp ++ ib' ++ [cb] ++ [32]) ++ [46; 46; 46] ++ X)
         with (t ++ sepp ++ tail_text k b last sp ++ rest)
         by (rewrite ET0, Etb, <- !app_assoc; reflexivity).
-      now rewrite (not_range_mult_reads pv t _ Htk Hro).
+      reflexivity.
     + apply sdots_app; [exact Hnt|]. apply nodot_sdots. repeat (apply Forall_app; split); assumption.
     + rewrite !app_assoc. rewrite <- (app_assoc _ [cb] [32]). rewrite lastns_end; [assumption|assumption|repeat constructor].
   - (* a repetition *)
@@ -623,14 +638,14 @@ Proof.
     apply Forall_app in Hnd1 as [Hn1a Hn1b].
     apply (Hgoal t _ Htk eq_refl). unfold chk_l1.
     replace ((dec_nat n ++ 120 :: t) ++ sepp ++ tail_text k b last sp ++ rest)
+      with (dec_nat n ++ 120 :: t ++ sepp ++ tail_text k b last sp ++ rest)
+      by (rewrite <- app_assoc; reflexivity).
+    rewrite Hm1, Hax, (tok_not_lb pv t _ Htk Hro).
+    replace (dec_nat n ++ 120 :: t ++ sepp ++ tail_text k b last sp ++ rest)
       with (((dec_nat n ++ [120]) ++ t ++ sepp ++ ib' ++ [cb] ++ [32]) ++ [46; 46; 46] ++ X)
       by (rewrite ET0, Etb, <- !app_assoc; reflexivity).
     rewrite find_ell_skip.
-    + rewrite Eell, Nat.ltb_irrefl.
-      replace (((dec_nat n ++ [120]) ++ t ++ sepp ++ ib' ++ [cb] ++ [32]) ++ [46; 46; 46] ++ X)
-        with (dec_nat n ++ 120 :: t ++ sepp ++ tail_text k b last sp ++ rest)
-        by (rewrite ET0, Etb, <- !app_assoc; reflexivity).
-      now rewrite Hm1, Hax.
+    + rewrite Eell, Nat.ltb_irrefl. reflexivity.
     + apply sdots_app; [apply nodot_sdots; apply Forall_app; split; assumption|].
       apply sdots_app; [exact Hnt|]. apply nodot_sdots. repeat (apply Forall_app; split); assumption.
     + rewrite !app_assoc. rewrite <- (app_assoc _ [cb] [32]). rewrite lastns_end; [assumption|assumption|repeat constructor].
@@ -638,7 +653,14 @@ Proof.
     destruct Hpok as ((Hsb' & Hsl' & _) & Hsp' & _). subst pv.
     destruct (tok_k_chars k' b' Hsb') as (Hnd' & i2 & c2 & Et2 & Hc240 & Hc2s).
     assert (Htl : tokof dec2f dec2d (mk k' last') (tok_k k' last')) by (apply tok_k_tokof; now apply small_good).
-    apply (Hgoal (tok_k k' last') _ Htl eq_refl). unfold chk_l1, tail_text at 1, ell4.
+    apply (Hgoal (tok_k k' last') _ Htl eq_refl). unfold chk_l1.
+    assert (Hnm : is_range_multiplier (tail_text k' b' last' sp' ++ sepp ++ tail_text k b last sp ++ rest) = false).
+    { unfold tail_text at 1. unfold ell4. rewrite <- app_assoc.
+      apply (not_range_mult dec2f dec2d (mk k' b') (tok_k k' b')); [apply tok_k_core; now apply small_good|].
+      split; [right; reflexivity|cbn; lia]. }
+    assert (Hnb : (hd0 (tail_text k' b' last' sp' ++ sepp ++ tail_text k b last sp ++ rest) =? 91) = false).
+    { unfold tail_text at 1. destruct (tok_k_hd k' b') as (c0 & r0 & E0 & Hc0). rewrite E0. cbn [app]. rewrite hd0_cons. lia. }
+    rewrite Hnm, Hnb. unfold tail_text at 1, ell4.
     replace ((tok_k k' b' ++ [32; 46; 46; 46] ++ sp' ++ tok_k k' last') ++ sepp ++ tail_text k b last sp ++ rest)
       with ((i2 ++ [c2] ++ [32]) ++ [46; 46; 46] ++ (sp' ++ tok_k k' last' ++ sepp ++ tail_text k b last sp ++ rest))
       by (rewrite Et2, <- !app_assoc; reflexivity).
